@@ -202,12 +202,15 @@ theories/C24/Spec.vos theories/C24/Spec.vok theories/C24/Spec.required_vos: theo
 theories/C25/Model.vo theories/C25/Model.glob theories/C25/Model.v.beautified theories/C25/Model.required_vo: theories/C25/Model.v theories/Base/Bytes.vo theories/Base/Res.vo theories/C24/Ops.vo theories/C24/Model.vo
 theories/C25/Model.vio: theories/C25/Model.v theories/Base/Bytes.vio theories/Base/Res.vio theories/C24/Ops.vio theories/C24/Model.vio
 theories/C25/Model.vos theories/C25/Model.vok theories/C25/Model.required_vos: theories/C25/Model.v theories/Base/Bytes.vos theories/Base/Res.vos theories/C24/Ops.vos theories/C24/Model.vos
-theories/C25/Run.vo theories/C25/Run.glob theories/C25/Run.v.beautified theories/C25/Run.required_vo: theories/C25/Run.v theories/Base/Bytes.vo theories/Base/Res.vo theories/C24/Ops.vo theories/C24/Model.vo theories/C24/Run.vo theories/C25/Model.vo theories/C25/Spec.vo
-theories/C25/Run.vio: theories/C25/Run.v theories/Base/Bytes.vio theories/Base/Res.vio theories/C24/Ops.vio theories/C24/Model.vio theories/C24/Run.vio theories/C25/Model.vio theories/C25/Spec.vio
-theories/C25/Run.vos theories/C25/Run.vok theories/C25/Run.required_vos: theories/C25/Run.v theories/Base/Bytes.vos theories/Base/Res.vos theories/C24/Ops.vos theories/C24/Model.vos theories/C24/Run.vos theories/C25/Model.vos theories/C25/Spec.vos
+theories/C25/Run.vo theories/C25/Run.glob theories/C25/Run.v.beautified theories/C25/Run.required_vo: theories/C25/Run.v theories/Base/Bytes.vo theories/Base/Res.vo theories/C24/Ops.vo theories/C24/Model.vo theories/C24/Run.vo theories/C25/Model.vo theories/C25/Spec.vo theories/C25/System.vo
+theories/C25/Run.vio: theories/C25/Run.v theories/Base/Bytes.vio theories/Base/Res.vio theories/C24/Ops.vio theories/C24/Model.vio theories/C24/Run.vio theories/C25/Model.vio theories/C25/Spec.vio theories/C25/System.vio
+theories/C25/Run.vos theories/C25/Run.vok theories/C25/Run.required_vos: theories/C25/Run.v theories/Base/Bytes.vos theories/Base/Res.vos theories/C24/Ops.vos theories/C24/Model.vos theories/C24/Run.vos theories/C25/Model.vos theories/C25/Spec.vos theories/C25/System.vos
 theories/C25/Spec.vo theories/C25/Spec.glob theories/C25/Spec.v.beautified theories/C25/Spec.required_vo: theories/C25/Spec.v theories/Base/Bytes.vo theories/C24/Ops.vo
 theories/C25/Spec.vio: theories/C25/Spec.v theories/Base/Bytes.vio theories/C24/Ops.vio
 theories/C25/Spec.vos theories/C25/Spec.vok theories/C25/Spec.required_vos: theories/C25/Spec.v theories/Base/Bytes.vos theories/C24/Ops.vos
+theories/C25/System.vo theories/C25/System.glob theories/C25/System.v.beautified theories/C25/System.required_vo: theories/C25/System.v theories/Base/Bytes.vo theories/Base/Res.vo theories/C24/Ops.vo theories/C24/Model.vo theories/C25/Model.vo theories/C25/Spec.vo
+theories/C25/System.vio: theories/C25/System.v theories/Base/Bytes.vio theories/Base/Res.vio theories/C24/Ops.vio theories/C24/Model.vio theories/C25/Model.vio theories/C25/Spec.vio
+theories/C25/System.vos theories/C25/System.vok theories/C25/System.required_vos: theories/C25/System.v theories/Base/Bytes.vos theories/Base/Res.vos theories/C24/Ops.vos theories/C24/Model.vos theories/C25/Model.vos theories/C25/Spec.vos
 theories/DBus/De.vo theories/DBus/De.glob theories/DBus/De.v.beautified theories/DBus/De.required_vo: theories/DBus/De.v theories/Base/Bytes.vo theories/Base/Res.vo theories/Base/Sig.vo theories/Base/SigParse.vo theories/Base/Utf8.vo theories/DBus/Val.vo theories/DBus/Spec.vo theories/DBus/Ser.vo
 theories/DBus/De.vio: theories/DBus/De.v theories/Base/Bytes.vio theories/Base/Res.vio theories/Base/Sig.vio theories/Base/SigParse.vio theories/Base/Utf8.vio theories/DBus/Val.vio theories/DBus/Spec.vio theories/DBus/Ser.vio
 theories/DBus/De.vos theories/DBus/De.vok theories/DBus/De.required_vos: theories/DBus/De.v theories/Base/Bytes.vos theories/Base/Res.vos theories/Base/Sig.vos theories/Base/SigParse.vos theories/Base/Utf8.vos theories/DBus/Val.vos theories/DBus/Spec.vos theories/DBus/Ser.vos
